@@ -226,6 +226,12 @@ static void part_params(uint64_t &top)
         for(int v : {0, 5, -100000, 100000}) { std::string m = mk_msg(w.addrs[ai], "i"); size_t off = m.size() - 4; m[off] = (char)(v >> 24); m[off + 1] = (char)(v >> 16); m[off + 2] = (char)(v >> 8); m[off + 3] = (char)v; msgs.push_back(m); }
         for(float fv : {0.25f, -1e9f, 1e9f}) { std::string m = mk_msg(w.addrs[ai], "f"); uint32_t u; memcpy(&u, &fv, 4); size_t off = m.size() - 4; m[off] = (char)(u >> 24); m[off + 1] = (char)(u >> 16); m[off + 2] = (char)(u >> 8); m[off + 3] = (char)u; msgs.push_back(m); }
         msgs.push_back(mk_msg(w.addrs[ai] + "x", "i")); msgs.push_back(mk_msg(w.addrs[ai] + "/zzz", ""));
+        // strings that look like numbers (in and beyond the int range, negative, with a sign, empty) as s and S arguments
+        for(const char *txt : {"0", "1", "2147483647", "2147483648", "4294967296", "99999999999999999999", "-1", "-2147483649", "+5", "", "1e99", "0x7fffffffffffffff"})
+            for(char tag : {'s', 'S'}) { std::string m = w.addrs[ai]; m.append(4 - m.size() % 4, '\0'); m += ','; m += tag; m.append(2, '\0'); m += txt; m.append(4 - strlen(txt) % 4, '\0'); msgs.push_back(m); }
+        // an index written with so many digits that it only fits modulo 2^32 / 2^64 (array and enumerated ports; a no-op elsewhere)
+        { std::string a = w.addrs[ai]; size_t e = a.size(); while(e > 0 && isdigit((unsigned char)a[e - 1])) --e;
+          if(e < a.size()) for(const char *ix : {"4294967296", "4294967297", "18446744073709551616", "2147483648", "00000000000000000000"}) { msgs.push_back(mk_msg(a.substr(0, e) + ix, "")); msgs.push_back(mk_msg(a.substr(0, e) + ix, "i")); } }
         vp::state(); vp::eval(msgs.size()); vp::nontrivial(vp::fnv(cid));
         RT_BEGIN
             for(auto &m : msgs) {
